@@ -71,6 +71,10 @@ def serve(ep, script, timeout=10.0):
 
     def respond(phase):
         a = act(phase)
+        if a.get("stall"):
+            time.sleep(a["stall"])
+            obs["phase_end"] = "stall:" + phase
+            return False
         if a.get("drop"):
             obs["phase_end"] = "drop:" + phase
             return False
